@@ -121,9 +121,11 @@ func c02Request(v vsx) *anypb.Any {
 	case 3:
 		msg = &conformancev1.BidiStreamRequest{RequestData: data, ResponseDefinition: streamDef(), FullDuplex: fullDuplex}
 	case 4:
-		msg = &conformancev1.Header{Name: string(data)} // a linked message type that defines no response
+		msg = &conformancev1.Header{Name: fmt.Sprintf("%x", data)} // a linked message type that defines no response
 	default:
-		return &anypb.Any{TypeUrl: "type.googleapis.com/verif.NoSuchMessage", Value: data}
+		// stands for an Any whose type URL does not resolve: c02Library rewrites the type name in the
+		// JSON text (protojson cannot marshal an unresolvable Any), so the real parser meets the unknown URL
+		msg = &conformancev1.ConformancePayload{Data: data}
 	}
 	a, err := anypb.New(msg)
 	if err != nil {
@@ -236,10 +238,8 @@ func (p *c02Proj) errv(e *conformancev1.Error) vsx {
 	if e == nil {
 		return vL()
 	}
-	msg := vL()
-	if e.Message != nil {
-		msg = vL(vS(e.GetMessage()))
-	}
+	// an absent message and an empty one are the same thing on the wire and to the assertion
+	msg := vS(e.GetMessage())
 	var dets []vsx
 	ri := &conformancev1.ConformancePayload_RequestInfo{}
 	for _, d := range e.Details {
@@ -302,6 +302,7 @@ func c02Library(tests vsx, cfgv vsx) (*testCaseLibrary, *conformancev1.TestSuite
 	if err != nil {
 		panic(err)
 	}
+	data = bytes.ReplaceAll(data, []byte("connectrpc.conformance.v1.ConformancePayload\""), []byte("verif.NoSuchMessage\""))
 	suites, err := parseTestSuites(map[string][]byte{"verif.yaml": data})
 	if err != nil {
 		return nil, suite, nil, err
@@ -340,10 +341,7 @@ func verifC02Expect(args []vsx) vsx {
 	if err != nil {
 		return vErr("load")
 	}
-	orig := map[string]*conformancev1.TestCase{}
-	for _, tc := range suite.TestCases {
-		orig[tc.Request.TestName] = tc
-	}
+	orig := c02Orig(suite)
 	var names []string
 	for n := range lib.testCases {
 		names = append(names, n)
@@ -352,7 +350,7 @@ func verifC02Expect(args []vsx) vsx {
 	var out []vsx
 	for _, n := range names {
 		tc := lib.testCases[n]
-		o := orig[lib.testCaseNames[n]]
+		o := orig[c02Key(lib.testCaseNames[n], tc.Request.StreamType)]
 		out = append(out, vL(vS(lib.testCaseNames[n]), c02ProjFor(tc, o).result(tc.ExpectedResponse, false)))
 	}
 	return vL(out...)
@@ -425,10 +423,7 @@ func verifC02Live(args []vsx) vsx {
 		}
 		return vErr("load")
 	}
-	orig := map[string]*conformancev1.TestCase{}
-	for _, tc := range suite.TestCases {
-		orig[tc.Request.TestName] = tc
-	}
+	orig := c02Orig(suite)
 	// no deadline on this context: the in-process reference client would propagate it as an RPC timeout
 	ctx, cancel := context.WithCancel(context.Background())
 	defer cancel()
@@ -528,7 +523,7 @@ func verifC02Live(args []vsx) vsx {
 	out := make([]vsx, 0, len(perms))
 	for _, p := range perms {
 		base := baseOf(p.name)
-		o := orig[base]
+		o := orig[c02Key(base, p.tc.Request.StreamType)]
 		proj := c02ProjFor(p.tc, o)
 		verdict := vS("pass")
 		if oc, ok := results.outcomes[p.name]; !ok {
@@ -561,6 +556,20 @@ func verifC02Live(args []vsx) vsx {
 		out = append(out, vL(vS(base), cfg, verdict, actual))
 	}
 	return vL(out...)
+}
+
+func c02Key(name string, st conformancev1.StreamType) string { return fmt.Sprintf("%d/%s", st, name) }
+
+// the definitions as generated, by (stream type, name); the first one wins, as in the model
+func c02Orig(suite *conformancev1.TestSuite) map[string]*conformancev1.TestCase {
+	orig := map[string]*conformancev1.TestCase{}
+	for _, tc := range suite.TestCases {
+		k := c02Key(tc.Request.TestName, tc.Request.StreamType)
+		if _, ok := orig[k]; !ok {
+			orig[k] = tc
+		}
+	}
+	return orig
 }
 
 func firstLines(s string, n int) string {
